@@ -19,6 +19,7 @@ pub trait DynProp: Sync {
     fn run_shard(&self, args: ShardArgs) -> ShardSummary;
     fn replay(&self, v: serde_json::Value) -> Result<Option<Failure>, String>;
     fn shrink_json(&self, v: &serde_json::Value) -> Vec<serde_json::Value>;
+    fn corpus(&self, seed: u64) -> Vec<Vec<u8>>;
 }
 
 pub struct Erased<P: Prop>(pub std::marker::PhantomData<fn() -> P>);
@@ -52,6 +53,9 @@ impl<P: Prop> DynProp for Erased<P> {
     }
     fn replay(&self, v: serde_json::Value) -> Result<Option<Failure>, String> {
         worker::replay::<P>(v)
+    }
+    fn corpus(&self, seed: u64) -> Vec<Vec<u8>> {
+        P::corpus(seed)
     }
     fn shrink_json(&self, v: &serde_json::Value) -> Vec<serde_json::Value> {
         let cv = v.get("case").cloned().unwrap_or_else(|| v.clone());
